@@ -25,10 +25,11 @@ import (
 )
 
 const (
-	softMs    = 5000  // CPU ms on one input before the solo re-run (observed maximum: tens of ms)
-	hardMs    = 60000 // CPU ms of the solo re-run; beyond it an input <= 16 KB is a hang
-	hangLimit = 16 << 10
-	maxHangs  = 3 // confirmed hangs after which the sweep stops (each costs > 60 CPU-seconds)
+	softMs     = 5000  // CPU ms on one input before the solo re-run (observed maximum: tens of ms)
+	hardMs     = 60000 // CPU ms of the solo re-run; beyond it an input <= 16 KB is a hang
+	hangLimit  = 16 << 10
+	maxCrashes = 4 // reproduced fatal crashes after which the sweep stops
+	maxHangs   = 2 // solo re-runs of over-budget inputs per run; afterwards the sweep stops (each may cost 60 CPU-seconds)
 )
 
 // Case is the replay format (B survives arbitrary bytes; Text is for humans).
@@ -54,71 +55,91 @@ type outcome struct {
 	skipped bool
 }
 
-func buildInputs(c *core.Ctx) ([]input, map[string]bool) {
+// builder produces the input list in waves so that the thorough tier never
+// holds millions of texts at once. Wave 0 carries the value-determined classes
+// (corpus, every truncation, CRLF); every wave adds its share of mutations,
+// generated programs, random bytes and token soups from streams named after
+// the wave. Inputs are deduplicated across waves by hash.
+type builder struct {
+	c      *core.Ctx
+	seeds  []ptree.Seed
+	corpus map[string]bool
+	seen   map[uint64]bool
+}
+
+func newBuilder(c *core.Ctx) *builder {
+	b := &builder{c: c, seeds: ptree.LoadCorpus(c.Repo), corpus: map[string]bool{}, seen: map[uint64]bool{}}
+	for _, s := range b.seeds {
+		b.corpus[s.Text] = true
+	}
+	return b
+}
+
+func (b *builder) wave(w int) []input {
+	c := b.c
 	var ins []input
-	seen := map[string]bool{}
 	add := func(name, class, text string) {
-		if seen[text] {
+		h := core.Hash64(text)
+		if b.seen[h] {
 			return
 		}
-		seen[text] = true
+		b.seen[h] = true
 		ins = append(ins, input{name, class, text})
 	}
-	seeds := ptree.LoadCorpus(c.Repo)
-	corpus := map[string]bool{}
 	whole := func(s ptree.Seed) string {
 		if s.Whole {
 			return s.Text
 		}
 		return ptree.Wrap(s.Text)
 	}
-	for _, s := range seeds {
-		corpus[s.Text] = true
-		add(s.Name, "corpus", s.Text)
-		if !s.Whole {
-			add(s.Name+"+wrap", "corpus-wrapped", ptree.Wrap(s.Text))
+	if w == 0 {
+		for _, s := range b.seeds {
+			add(s.Name, "corpus", s.Text)
+			if !s.Whole {
+				add(s.Name+"+wrap", "corpus-wrapped", ptree.Wrap(s.Text))
+			}
 		}
-	}
-	// every truncation (stride 1 up to 1.5 KB, 7 above)
-	for _, s := range seeds {
-		for _, t := range ptree.Truncations(s.Text) {
-			add(s.Name+"+trunc", "truncation", t)
+		// every truncation (stride 1 up to 1.5 KB, 7 above)
+		for _, s := range b.seeds {
+			for _, t := range ptree.Truncations(s.Text) {
+				add(s.Name+"+trunc", "truncation", t)
+			}
+			if !s.Whole {
+				w := ptree.Wrap(s.Text)
+				pre := strings.Index(w, s.Text)
+				for i := pre + 1; i < len(w); i++ {
+					add(s.Name+"+wrap+trunc", "truncation", w[:i])
+				}
+			}
 		}
-		if !s.Whole {
-			w := ptree.Wrap(s.Text)
-			pre := strings.Index(w, s.Text)
-			for i := pre + 1; i < len(w); i++ {
-				add(s.Name+"+wrap+trunc", "truncation", w[:i])
+		// CRLF variants and their truncations (stride 3)
+		for _, s := range b.seeds {
+			w := ptree.CRLF(whole(s))
+			add(s.Name+"+crlf", "crlf", w)
+			if s.Whole {
+				for i := 0; i < len(w); i += 3 {
+					add(s.Name+"+crlf+trunc", "crlf-truncation", w[:i])
+				}
 			}
 		}
 	}
-	// CRLF variants and their truncations (stride 3)
-	for _, s := range seeds {
-		w := ptree.CRLF(whole(s))
-		add(s.Name+"+crlf", "crlf", w)
-		if s.Whole {
-			for i := 0; i < len(w); i += 3 {
-				add(s.Name+"+crlf+trunc", "crlf-truncation", w[:i])
-			}
+	r := c.Rand(fmt.Sprintf("mutants-%d", w))
+	for _, s := range b.seeds {
+		t := whole(s)
+		for k := 4; k > 0; k-- {
+			add(s.Name+"+wide", "multibyte-before-expression", ptree.WideBefore(r, t))
 		}
-	}
-	r := c.Rand("mutants")
-	for _, s := range seeds {
-		w := whole(s)
-		for k := c.Pick(4, 12); k > 0; k-- {
-			add(s.Name+"+wide", "multibyte-before-expression", ptree.WideBefore(r, w))
-		}
-		for k := c.Pick(250, 2500); k > 0; k-- {
-			base := w
+		for k := 250; k > 0; k-- {
+			base := t
 			if !s.Whole && k%4 == 0 {
 				base = s.Text // the fragment on its own, as the table tests feed it to sub-parsers
 			}
 			add(s.Name+"+mut", "mutation", ptree.Mutate(r, base))
 		}
 	}
-	// generated programs (every slot, multi-line, multi-byte) and their truncations
-	gr := c.Rand("programs")
-	for i := c.Pick(200, 1500); i > 0; i-- {
+	// generated programs (every slot, multi-line, multi-byte), truncations, mutations
+	gr := c.Rand(fmt.Sprintf("programs-%d", w))
+	for i := 200; i > 0; i-- {
 		p := ptree.GenProgram(rand.New(rand.NewSource(gr.Int63())))
 		add("gen", "generated", p)
 		for j := gr.Intn(11); j < len(p); j += 11 {
@@ -128,12 +149,12 @@ func buildInputs(c *core.Ctx) ([]input, map[string]bool) {
 			add("gen+mut", "generated-mutation", ptree.Mutate(gr, p))
 		}
 	}
-	rr := c.Rand("random")
-	for i := c.Pick(40000, 400000); i > 0; i-- {
+	rr := c.Rand(fmt.Sprintf("random-%d", w))
+	for i := 40000; i > 0; i-- {
 		add("random", "random-bytes", ptree.RandomBytes(rr))
 		add("soup", "token-soup", ptree.TokenSoup(rr))
 	}
-	return ins, corpus
+	return ins
 }
 
 var digits = regexp.MustCompile(`[0-9]+`)
@@ -201,132 +222,140 @@ func Run(c *core.Ctx) {
 	}
 	core.AtExit(func() { os.RemoveAll(scratch) })
 
-	ins, corpus := buildInputs(c)
-	classes := map[string]int{}
-	for _, in := range ins {
-		classes[in.class]++
-	}
-	c.Set("inputs_by_class", classes)
-	c.Set("inputs_total", len(ins))
-	c.Set("t_build_inputs_s", time.Since(c.Start).Seconds())
-
-	// ---- sweep: batches in child processes, 16 at a time. Batches interleave
-	// the input list so that every child gets a similar mix.
+	bld := newBuilder(c)
+	corpus := bld.corpus
 	const workers = 16
-	nb := (len(ins) + 1999) / 2000
-	if nb < workers {
-		nb = workers
-	}
-	outs := make([]outcome, len(ins))
-	var hangs atomic.Int32
-	var wg sync.WaitGroup
-	bch := make(chan int)
-	var infraMu sync.Mutex
-	var infra []string
-	for w := 0; w < workers; w++ {
-		wg.Add(1)
-		go func() {
-			defer wg.Done()
-			for b := range bch {
-				var idx []int
-				var texts []string
-				for i := b; i < len(ins); i += nb {
-					idx = append(idx, i)
-					texts = append(texts, ins[i].text)
-				}
-				if msg := runBatch(self, scratch, b, texts, idx, outs, &hangs); msg != "" {
-					infraMu.Lock()
-					infra = append(infra, msg)
-					infraMu.Unlock()
-				}
-			}
-		}()
-	}
-	for b := 0; b < nb; b++ {
-		bch <- b
-	}
-	close(bch)
-	wg.Wait()
-	c.Set("t_sweep_s", time.Since(c.Start).Seconds())
-	for _, m := range infra {
-		c.Inconclusive("child infrastructure: " + m)
-	}
-
-	// ---- judge
+	var hangs, crashes atomic.Int32
+	classes := map[string]int{}
 	stages := map[string]int{}
 	var maxCPU int64
 	maxCPUName := ""
 	type fail struct {
-		i     int
-		kind  string // panic | errpos | hang | fatal | memory | <position kind>
-		group string
-		msg   string
+		text, name, class string
+		kind              string // panic | errpos | hang | fatal | memory | <position kind>
+		group             string
+		msg               string
 	}
 	var fails []fail
-	nExprChecked, nNamed, nRange, nPE, accepted, skipped, parsed := 0, 0, 0, 0, 0, 0, 0
-	for i, o := range outs {
-		in := ins[i]
-		if o.skipped || !o.have && !o.hang && o.crash == "" && o.flaky == "" && !o.mem && o.slow == 0 {
-			skipped++
-			continue
+	nExprChecked, nNamed, nRange, nPE, accepted, skipped, parsed, total := 0, 0, 0, 0, 0, 0, 0, 0
+	waves := c.Pick(1, 9)
+	for w := 0; w < waves && int(hangs.Load()) < maxHangs && int(crashes.Load()) < maxCrashes; w++ {
+		ins := bld.wave(w)
+		total += len(ins)
+		for _, in := range ins {
+			classes[in.class]++
 		}
-		c.Eval(1)
-		switch {
-		case o.hang:
-			if len(in.text) <= hangLimit {
-				fails = append(fails, fail{i, "hang", "hang", fmt.Sprintf("parsing did not finish within %d CPU-seconds (solo re-run)", hardMs/1000)})
-			} else {
-				c.Inconclusive(fmt.Sprintf("input %s (%d bytes > 16 KB) exceeded the hard CPU budget", in.name, len(in.text)))
+		// ---- sweep: batches in child processes, 16 at a time. Batches interleave
+		// the input list so that every child gets a similar mix.
+		nb := (len(ins) + 1999) / 2000
+		if nb < workers {
+			nb = workers
+		}
+		outs := make([]outcome, len(ins))
+		var wg sync.WaitGroup
+		bch := make(chan int)
+		var infraMu sync.Mutex
+		var infra []string
+		for k := 0; k < workers; k++ {
+			wg.Add(1)
+			go func() {
+				defer wg.Done()
+				for b := range bch {
+					var idx []int
+					var texts []string
+					for i := b; i < len(ins); i += nb {
+						idx = append(idx, i)
+						texts = append(texts, ins[i].text)
+					}
+					if msg := runBatch(self, scratch, b, texts, idx, outs, &hangs, &crashes); msg != "" {
+						infraMu.Lock()
+						infra = append(infra, msg)
+						infraMu.Unlock()
+					}
+				}
+			}()
+		}
+		for b := 0; b < nb; b++ {
+			bch <- b
+		}
+		close(bch)
+		wg.Wait()
+		for _, m := range infra {
+			c.Inconclusive("child infrastructure: " + m)
+		}
+
+		// ---- judge this wave
+		for i, o := range outs {
+			in := ins[i]
+			addFail := func(kind, group, msg string) {
+				fails = append(fails, fail{in.text, in.name, in.class, kind, group, msg})
 			}
-			continue
-		case o.mem:
-			fails = append(fails, fail{i, "memory", "memory", "parsing allocated more than 3 GiB (reproduced solo)"})
-			continue
-		case o.crash != "":
-			fails = append(fails, fail{i, "fatal", "fatal " + panicSig(o.crash), "the process died while parsing (reproduced solo): " + ptree.Clip(o.crash, 300)})
-			continue
-		case o.flaky != "":
-			c.Inconclusive(fmt.Sprintf("input %s: %s (did not reproduce in a solo re-run)", in.name, o.flaky))
-			continue
-		case o.slow > 0:
-			c.Inconclusive(fmt.Sprintf("input %s (%d bytes) needed %d ms CPU: above the soft budget, below the hard one", in.name, len(in.text), o.slow/1000))
-		}
-		r := o.rec
-		stages[r.Stage]++
-		if r.CPUus > maxCPU {
-			maxCPU, maxCPUName = r.CPUus, fmt.Sprintf("%s (%d bytes)", in.name, len(in.text))
-		}
-		if !corpus[in.text] && (r.Stage == "parse-error" || r.Stage == "panic:parse" || r.NExpr > 0) {
-			c.NontrivialStr(in.text)
-		}
-		if r.Stage != "parse-error" && r.Stage != "panic:parse" {
-			parsed++
-		}
-		if r.Panic != "" {
-			fails = append(fails, fail{i, "panic", "panic " + panicSig(r.Panic), "ParseString panicked: " + ptree.Clip(r.Panic, 500)})
-		}
-		if r.PE {
-			nPE++
-			if r.PosIdx < 0 || r.PosIdx > len(in.text) {
-				fails = append(fails, fail{i, "errpos", "errpos", fmt.Sprintf("parse error %q carries position index %d outside the %d-byte input", r.Err, r.PosIdx, len(in.text))})
+			if o.skipped || !o.have && !o.hang && o.crash == "" && o.flaky == "" && !o.mem && o.slow == 0 {
+				skipped++
+				continue
 			}
-		}
-		if r.Stage == "ok" {
-			accepted++
-			nExprChecked += r.NExpr
-			nNamed += r.NNamed
-			nRange += r.NRange
-			c.Eval(r.NExpr + r.NNamed + r.NRange)
-			if al, ok := firstKind(r.Alarms); ok {
-				fails = append(fails, fail{i, al.Kind, al.Kind + " " + al.Slot, al.String()})
+			c.Eval(1)
+			switch {
+			case o.hang:
+				if len(in.text) <= hangLimit {
+					addFail("hang", "hang", fmt.Sprintf("parsing did not finish within %d CPU-seconds (solo re-run)", hardMs/1000))
+				} else {
+					c.Inconclusive(fmt.Sprintf("input %s (%d bytes > 16 KB) exceeded the hard CPU budget", in.name, len(in.text)))
+				}
+				continue
+			case o.mem:
+				addFail("memory", "memory", "parsing allocated more than 3 GiB (reproduced solo)")
+				continue
+			case o.crash != "":
+				addFail("fatal", "fatal "+panicSig(o.crash), "the process died while parsing (reproduced solo): "+ptree.Clip(o.crash, 300))
+				continue
+			case o.flaky != "":
+				c.Inconclusive(fmt.Sprintf("input %s: %s (did not reproduce in a solo re-run)", in.name, o.flaky))
+				continue
+			case o.slow > 0:
+				c.Inconclusive(fmt.Sprintf("input %s (%d bytes) needed %d ms CPU: above the soft budget, below the hard one", in.name, len(in.text), o.slow/1000))
 			}
-		}
-		if len(in.text) < 160 && (i%977 == 0) {
-			c.Sample(map[string]any{"name": in.name, "class": in.class, "input": in.text, "stage": r.Stage, "error": r.Err, "error_index": r.PosIdx, "cpu_us": r.CPUus, "expressions": r.NExpr})
+			r := o.rec
+			stages[r.Stage]++
+			if r.CPUus > maxCPU {
+				maxCPU, maxCPUName = r.CPUus, fmt.Sprintf("%s (%d bytes)", in.name, len(in.text))
+			}
+			if !corpus[in.text] && (r.Stage == "parse-error" || r.Stage == "panic:parse" || r.NExpr > 0) {
+				c.NontrivialStr(in.text)
+			}
+			if r.Stage != "parse-error" && r.Stage != "panic:parse" {
+				parsed++
+			}
+			if r.Panic != "" {
+				addFail("panic", "panic "+panicSig(r.Panic), "ParseString panicked: "+ptree.Clip(r.Panic, 500))
+			}
+			if r.PE {
+				nPE++
+				if r.PosIdx < 0 || r.PosIdx > len(in.text) {
+					addFail("errpos", "errpos", fmt.Sprintf("parse error %q carries position index %d outside the %d-byte input", r.Err, r.PosIdx, len(in.text)))
+				}
+			}
+			if r.Stage == "ok" {
+				accepted++
+				nExprChecked += r.NExpr
+				nNamed += r.NNamed
+				nRange += r.NRange
+				c.Eval(r.NExpr + r.NNamed + r.NRange)
+				if al, ok := firstKind(r.Alarms); ok {
+					addFail(al.Kind, al.Kind+" "+al.Slot, al.String())
+				}
+			}
+			if len(in.text) < 160 && (i%977 == 0) {
+				c.Sample(map[string]any{"name": in.name, "class": in.class, "input": in.text, "stage": r.Stage, "error": r.Err, "error_index": r.PosIdx, "cpu_us": r.CPUus, "expressions": r.NExpr})
+			}
 		}
 	}
+	c.Set("inputs_by_class", classes)
+	c.Set("inputs_total", total)
+	c.Set("waves", waves)
+	c.Set("t_sweep_s", time.Since(c.Start).Seconds())
 	c.Set("stages", stages)
-	c.Set("inputs_run", len(ins)-skipped)
+	c.Set("inputs_run", total-skipped)
 	c.Set("inputs_not_run", skipped)
 	c.Set("parsed_ok", parsed)
 	c.Set("accepted_by_generate_pipeline", accepted)
@@ -336,10 +365,11 @@ func Run(c *core.Ctx) {
 	c.Set("other_ranges_checked", nRange)
 	c.Set("max_cpu_us_single_input", maxCPU)
 	c.Set("max_cpu_input", maxCPUName)
-	c.Set("confirmed_hangs", int(hangs.Load()))
+	c.Set("over_budget_inputs_seen", int(hangs.Load()))
+	c.Set("fatal_crashes_reproduced", int(crashes.Load()))
 	if skipped > 0 {
-		if int(hangs.Load()) >= maxHangs {
-			c.Set("sweep_stopped_after_hangs", true)
+		if int(hangs.Load()) >= maxHangs || int(crashes.Load()) >= maxCrashes {
+			c.Set("sweep_stopped_after_hangs_or_crashes", true)
 		} else {
 			c.Inconclusive(fmt.Sprintf("%d inputs were not run", skipped))
 		}
@@ -348,14 +378,14 @@ func Run(c *core.Ctx) {
 		c.Inconclusive("no accepted input reached the position oracle")
 	}
 
-	// ---- canonical witnesses: per group the three smallest failing inputs
+	// ---- canonical witnesses: per group the two smallest failing inputs
 	// are reduced with "still fails the same way".
 	sort.SliceStable(fails, func(a, b int) bool {
-		la, lb := len(ins[fails[a].i].text), len(ins[fails[b].i].text)
+		la, lb := len(fails[a].text), len(fails[b].text)
 		if la != lb {
 			return la < lb
 		}
-		return fails[a].i < fails[b].i
+		return fails[a].text < fails[b].text
 	})
 	groups := map[string]int{}
 	for _, f := range fails {
@@ -369,7 +399,7 @@ func Run(c *core.Ctx) {
 	}
 	var jobs []*job
 	for _, f := range fails {
-		if per[f.group] >= 3 {
+		if per[f.group] >= 2 {
 			continue
 		}
 		per[f.group]++
@@ -383,14 +413,32 @@ func Run(c *core.Ctx) {
 		go func(j *job) {
 			defer rw.Done()
 			defer func() { <-sem }()
-			j.red = reduceFail(j.f.kind, j.f.group, ins[j.f.i].text)
+			if j.f.kind == "hang" || j.f.kind == "fatal" {
+				// every probe is a child with a 1 CPU-second budget; 30 probes
+				n := 0
+				j.red = ptree.ReduceN(j.f.text, func(s string) bool {
+					n++
+					dir := filepath.Join(scratch, fmt.Sprintf("red%016x-%d", core.Hash64(j.f.text), n))
+					_ = WriteBatch(dir+".bin", []string{s})
+					recs, _, _, _ := spawn(self, dir+".bin", 0, 1, dir+".out", dir+".prog", 1000)
+					os.Remove(dir + ".bin")
+					os.Remove(dir + ".out")
+					os.Remove(dir + ".prog")
+					if j.f.kind == "fatal" { // died without finishing and without a budget event
+						return len(recs) == 0 || !recs[len(recs)-1].Done && !recs[len(recs)-1].Soft && !recs[len(recs)-1].Mem
+					}
+					return len(recs) > 0 && recs[len(recs)-1].Soft
+				}, 30)
+				return
+			}
+			j.red = reduceFail(j.f.kind, j.f.group, j.f.text)
 		}(j)
 	}
 	rw.Wait()
 	for _, j := range jobs {
-		in := ins[j.f.i]
+		in := input{j.f.name, j.f.class, j.f.text}
 		msg := j.f.msg
-		if j.red != in.text {
+		if inProc := j.f.kind != "hang" && j.f.kind != "fatal" && j.f.kind != "memory"; inProc && j.red != in.text {
 			if r, ok := guarded(j.red); ok {
 				switch {
 				case j.f.kind == "panic":
@@ -416,11 +464,11 @@ func Run(c *core.Ctx) {
 	}
 }
 
-// reduceFail shrinks a failing input in-process (hangs and fatal crashes are
-// not reduced: every probe would cost a child and a budget).
+// reduceFail shrinks a failing input in-process (fatal crashes are not
+// reduced; hangs are reduced by the caller with child-process probes).
 func reduceFail(kind, group, text string) string {
 	switch kind {
-	case "hang", "fatal", "memory":
+	case "memory":
 		return text
 	case "panic":
 		return ptree.Reduce(text, func(s string) bool {
@@ -511,7 +559,7 @@ func progressIndex(prog string) int {
 
 // runBatch drives one batch to completion, restarting the child after every
 // input that killed it or ran out of budget, and re-running such inputs solo.
-func runBatch(self, scratch string, b int, texts []string, idx []int, outs []outcome, hangs *atomic.Int32) string {
+func runBatch(self, scratch string, b int, texts []string, idx []int, outs []outcome, hangs, crashes *atomic.Int32) string {
 	batch := filepath.Join(scratch, fmt.Sprintf("b%d.bin", b))
 	// the inputs are on disk before any child sees them
 	if err := WriteBatch(batch, texts); err != nil {
@@ -524,7 +572,7 @@ func runBatch(self, scratch string, b int, texts []string, idx []int, outs []out
 	defer os.Remove(prog)
 	from := 0
 	for from < len(texts) {
-		if int(hangs.Load()) >= maxHangs {
+		if int(hangs.Load()) >= maxHangs || int(crashes.Load()) >= maxCrashes {
 			for i := from; i < len(texts); i++ {
 				outs[idx[i]].skipped = true
 			}
@@ -558,8 +606,15 @@ func runBatch(self, scratch string, b int, texts []string, idx []int, outs []out
 				return fmt.Sprintf("child exited %d without progress information: %s", exit, ptree.Clip(stderr, 300))
 			}
 		}
-		// solo re-run of the culprit with the hard budget
+		// solo re-run of the culprit with the hard budget (at most maxHangs
+		// such re-runs for over-budget inputs per run, see above)
 		o := &outs[idx[culprit]]
+		if why == "soft" && int(hangs.Add(1)) > maxHangs {
+			for i := culprit; i < len(texts); i++ {
+				outs[idx[i]].skipped = true
+			}
+			return ""
+		}
 		srecs, sexit, sstderr, sinfra := spawn(self, batch, culprit, culprit+1, out, prog, hardMs)
 		if sinfra != "" {
 			return sinfra
@@ -583,11 +638,11 @@ func runBatch(self, scratch string, b int, texts []string, idx []int, outs []out
 			}
 		case last.Soft:
 			o.hang = true
-			hangs.Add(1)
 		case last.Mem:
 			o.mem = true
 		default:
 			o.crash = fmt.Sprintf("exit %d\n%s", sexit, sstderr)
+			crashes.Add(1)
 		}
 		from = culprit + 1
 	}
